@@ -23,6 +23,7 @@ def run(rep):
     R.row_index_provenance(rep)
     R.cache_fill_provenance(rep)
     R.iteration_labels(rep)
+    R.independent_lists(rep)
     R.template_agreement(rep)
     R.one_append_per_column(rep)
     rep.floor("row-index-provenance", 5)
